@@ -11,15 +11,20 @@
 (* keep returns the value under all three; load works iff the record       *)
 (* exists.  Blobs planted with a legacy codec reference (dbfs.pickle /     *)
 (* dbfs.string / dbfs.bytes) are decoded by the codec of the same kind.    *)
-(* DbfsConf (generated): Commit, Keys, KindOf, Paths, LegacyRefs, MaxOps.  *)
+(* The commit type belongs to the store handle: a process may configure    *)
+(* the store again (SetCommit) over the same directories, e.g. a data      *)
+(* directory first fed with "links_only" and later with "full".            *)
+(* DbfsConf (generated): Commit (initial), Commits (reconfigurable to),    *)
+(* Keys, KindOf, Paths, MaxOps.                                            *)
 (***************************************************************************)
 EXTENDS Naturals, Sequences, FiniteSets, TLC, Json, DbfsConf
 
 VARIABLES blobs,    \* [key -> "-" | codec reference recorded in its metadata]
           copies,   \* [path -> "-" | key whose bytes sit under the data directory]
           records,  \* [path -> "-" | key in the redirect record]
+          commit,   \* commit type of the current store handle
           last, hist
-vars == <<blobs, copies, records, last, hist>>
+vars == <<blobs, copies, records, commit, last, hist>>
 
 V(k) == <<"V", k>>
 RefKind(r) == CASE r \in {"local.string", "dbfs.string"} -> "str"
@@ -38,39 +43,56 @@ CanOp == Len(hist) < MaxOps
 Keep(q, k) ==
   /\ CanOp
   /\ blobs' = IF blobs[k] = "-" THEN [blobs EXCEPT ![k] = CurrentRef(k)] ELSE blobs
-  /\ copies' = IF Commit = "full" THEN [copies EXCEPT ![q] = k] ELSE copies
-  /\ records' = IF Commit \in {"full", "links_only"} THEN [records EXCEPT ![q] = k] ELSE records
+  /\ copies' = IF commit = "full" THEN [copies EXCEPT ![q] = k] ELSE copies
+  /\ records' = IF commit \in {"full", "links_only"} THEN [records EXCEPT ![q] = k] ELSE records
+  /\ UNCHANGED commit
   /\ Record("keep", q, k, [executed |-> blobs[k] = "-", value |-> V(k), kind |-> RefKind(IF blobs[k] = "-" THEN CurrentRef(k) ELSE blobs[k])])
 
 Load(q) ==
   /\ CanOp
   /\ Record("load", q, "", IF records[q] = "-" THEN [executed |-> FALSE, value |-> <<"missing">>, kind |-> ""]
                            ELSE [executed |-> FALSE, value |-> V(records[q]), kind |-> RefKind(blobs[records[q]])])
-  /\ UNCHANGED <<blobs, copies, records>>
+  /\ UNCHANGED <<blobs, copies, records, commit>>
 
 (* a blob written by an older version of the library: same bytes, legacy reference *)
 PlantLegacy(k) ==
   /\ CanOp /\ blobs[k] = "-"
   /\ blobs' = [blobs EXCEPT ![k] = LegacyRef(k)]
   /\ Record("plant", "", k, [executed |-> FALSE, value |-> <<"ok">>, kind |-> RefKind(LegacyRef(k))])
-  /\ UNCHANGED <<copies, records>>
+  /\ UNCHANGED <<copies, records, commit>>
+
+(* dds.set_store("dbfs", <same directories>, commit_type = c): a new handle, nothing is written *)
+SetCommit(c) ==
+  /\ CanOp /\ c # commit
+  /\ commit' = c
+  /\ Record("config", "", c, [executed |-> FALSE, value |-> <<"ok">>, kind |-> ""])
+  /\ UNCHANGED <<blobs, copies, records>>
 
 Init == /\ blobs = [k \in Keys |-> "-"] /\ copies = [q \in Paths |-> "-"] /\ records = [q \in Paths |-> "-"]
         /\ last = [op |-> "init", q |-> "", k |-> "", ans |-> [executed |-> FALSE, value |-> <<"ok">>, kind |-> ""]]
-        /\ hist = <<>>
+        /\ hist = <<>> /\ commit = Commit
 Next == \/ \E q \in Paths, k \in Keys : Keep(q, k)
         \/ \E q \in Paths : Load(q)
         \/ \E k \in Keys : PlantLegacy(k)
+        \/ \E c \in Commits : SetCommit(c)
 Spec == Init /\ [][Next]_vars
 
-CommitHonoured ==
+(* with one commit type for the whole history *)
+CommitHonoured == Commits = {} =>
   /\ Commit = "none" => \A q \in Paths : copies[q] = "-" /\ records[q] = "-"
   /\ Commit = "links_only" => \A q \in Paths : copies[q] = "-"
   /\ Commit = "full" => \A q \in Paths : copies[q] = records[q]
+(* per step, whatever the handles before did *)
+CommitStep == [][/\ commit = "none" => UNCHANGED <<copies, records>>
+                 /\ commit = "links_only" => UNCHANGED copies
+                 /\ (last'.op = "keep" /\ commit = "full") => copies'[last'.q] = last'.k /\ records'[last'.q] = last'.k
+                 /\ (last'.op = "keep" /\ commit = "links_only") => records'[last'.q] = last'.k]_vars
+(* a copy never sits under a path without a record *)
+CopyHasRecord == \A q \in Paths : copies[q] # "-" => records[q] # "-"
 LoadIffRecord == last.op = "load" => ((last.ans.value = <<"missing">>) <=> (records[last.q] = "-"))
 (* the decoding codec has the kind of the value, whichever generation of reference the blob carries *)
 LegacyKind == \A k \in Keys : blobs[k] # "-" => RefKind(blobs[k]) = KindOf[k]
 
 Dump == IF GenMode /\ Len(hist) = MaxOps THEN PrintT(<<"HIST", ToJson(hist)>>) ELSE TRUE
-DesignView == <<blobs, copies, records, last>>
+DesignView == <<blobs, copies, records, commit, last>>
 =============================================================================
